@@ -801,9 +801,11 @@ class World:
 
     def placeholder(self, tok):
         jwt = mint_tok(tok)
-        ph = "JWT#%d" % (len(self.jwts) + 1)
-        self.jwts[jwt] = ph
-        self.tokens[ph] = tok
+        ph = self.jwts.get(jwt)        # deterministic signatures: the same token gives the same string
+        if ph is None:
+            ph = "JWT#%d" % (len(self.jwts) + 1)
+            self.jwts[jwt] = ph
+            self.tokens[ph] = tok
         return jwt, ph
 
     def coq_response(self, params, tok):
